@@ -2,7 +2,10 @@
 
 package proxy
 
-import "github.com/datastax/go-cassandra-native-protocol/primitive"
+import (
+	"github.com/datastax/cql-proxy/proxycore"
+	"github.com/datastax/go-cassandra-native-protocol/primitive"
+)
 
 // Hooks for the verification harness in /verif. Compiled only with `-tags verif`.
 
@@ -28,4 +31,17 @@ func VerifSetWriteConsistencyOverride(cfg *Config, unsupported []uint16, overrid
 		cfg.UnsupportedWriteConsistencies = append(cfg.UnsupportedWriteConsistencies, clWrapper{primitive.ConsistencyLevel(u)})
 	}
 	cfg.UnsupportedWriteConsistencyOverride = clWrapper{primitive.ConsistencyLevel(override)}
+}
+
+func verifYield(point string) { proxycore.VerifYield(point) }
+
+// VerifDeliverClusterEvent hands a cluster event to the load balancer and to every session, as Cluster.sendEvent does
+// after a topology refresh (which by default happens only after a 10 s window).
+func VerifDeliverClusterEvent(p *Proxy, evt proxycore.Event) {
+	p.lb.OnEvent(evt)
+	p.sessionsMu.RLock()
+	defer p.sessionsMu.RUnlock()
+	for _, s := range p.sessions {
+		s.OnEvent(evt)
+	}
 }
